@@ -25,6 +25,7 @@ type Dumper struct {
 	depth   int
 	onPath  map[uintptr]bool
 	MaxDepth int
+	visits   int
 }
 
 // methods never followed (they leave the tree or are not pure accessors)
@@ -97,7 +98,15 @@ func (d *Dumper) obj(v reflect.Value, path string, parent interface{}) map[strin
 			d.Cycles++
 			return out
 		}
+		d.visits++
 		if first, dup := d.Seen[p]; dup && first != path {
+			if d.visits > 40000 {
+				// a schema graph made of groupings that use each other many times over is walked in full up to a
+				// point; from there on an object that was walked before is not walked again (the number of paths
+				// through such a graph grows exponentially, the number of objects does not)
+				out["_walked_before"] = true
+				return out
+			}
 			d.Aliased = append(d.Aliased, fmt.Sprintf("%s also at %s", first, path))
 		} else {
 			d.Seen[p] = path
